@@ -5,8 +5,12 @@
 //
 // Input grammar (space separated k=v; texts are c20lib.Enc-encoded):
 //
-//	mode=json n=<instances> sc=<0|clients> tmo=<0|40|90> e=<tag|call|k:v,..|field:val,..>;...
+//	mode=json n=<instances> sc=<0|clients> tmo=<seconds>|tmoms=<ms> oe=<0|1> e=<tag|call|k:v,..|field:val,..>;...
 //	    run through the real engine (startup once(n), rps unlimited, passes 1); observation = sorted multisets.
+//	    oe=1: an entry without metadata / payload has no such key in the file (otherwise an empty object).
+//	mode=json run=sched ... sched=<instance digit per entry>
+//	    the real provider and n real guns bound the way the instance pool does it, entry k fired by instance
+//	    sched[k] by one goroutine; observation = the trace entry by entry + number of connections used.
 //	mode=scen run=sched n=.. tmo=.. users=a,b,.. g=<const> calls=<name|call|k:tmpl,..|field:valtmpl,..|pre>;..
 //	    scns=<name:weight:req+req*2..>;.. sched=<instance digit per shot>
 //	    N guns shot one at a time in the given order by one goroutine (deterministic); observation = the trace.
@@ -21,6 +25,9 @@
 package main
 
 import (
+	"os"
+	"time"
+
 	"verifharness/drv"
 )
 
@@ -28,17 +35,27 @@ func main() {
 	if childMain() {
 		return
 	}
+	workers := 6
+	for i, a := range os.Args {
+		if (a == "-tier" || a == "--tier") && i+1 < len(os.Args) && os.Args[i+1] == "thorough" {
+			workers = 12
+		}
+	}
 	drv.Main(&drv.Prop{
 		ID:      "C20",
 		Gen:     gen,
 		Run:     run,
 		Class:   class,
-		Workers: 6,
+		Workers: workers,
+		Timeout: 60 * time.Second,
 		Rule: "grpc/json ammo over the example service's six methods (payload field combinations incl. json names, quoted " +
-			"numbers, defaults; metadata maps; unknown methods; ill-typed payloads; mixed) with 1..4 instances and shared " +
-			"client on/off through the real engine, and gRPC scenarios (templated metadata/payload, per-shot users via " +
-			"[next], auth token chaining, the same call in several scenarios, failing steps) shot by 1..4 real guns in " +
-			"generated instance orders and through the real engine; non-trivial = at least one call reached the server " +
-			"or a failed sample was produced",
+			"numbers, defaults, int64 values beyond 2^53 and beyond the range; metadata maps; unknown methods; ill-typed " +
+			"payloads; mixed; >128 alternating rich/sparse entries) with 1..5 instances, shared client pools of 0..7 and " +
+			"timeouts 0/2/3/40/65/90/115 s, through the real engine and entry by entry in generated instance orders; gRPC " +
+			"scenarios (templated metadata/payload, per-shot users via [next], auth token chaining, the same call in " +
+			"several scenarios, names whose joined forms collide, a metadata key called payload, failing steps, sleeps " +
+			"adding up to more than the per-call timeout) shot by 1..4 real guns in generated instance orders and " +
+			"through the real engine; thorough adds exhaustive schedules / pool shapes / the payload typing table; " +
+			"non-trivial = at least one call reached the server or a failed sample was produced",
 	})
 }
